@@ -81,6 +81,7 @@ def alphabet_big():
         assign("$f0", S(Y, C(5))),
         yield_(V("$f0"), comp="f"),
         assign("b", V("i"), loops=[["i", V("n"), C(4)]]),
+        assign("a", ["pow", ["pow", Y, C(2)], C(3)]),                   # a power as the base of a power
         assign("fl", CMP("<", Y, C(2))),                               # a logical temporary used as a guard by itself
         if_(V("fl")),
         if_(["not", V("fl")]),
@@ -108,6 +109,8 @@ def guard_family():
                 if with_else:
                     prog += [{"op": "else"}, assign("<state>y", S(Y, C(1))), yield_(Y, comp="else"), {"op": "endelse"}]
                 out.append(prog + [yield_(Y, comp="after")])
+    out.append([assign("a", ["pow", ["pow", Y, C(2)], C(3)]), yield_(V("a"), comp="a"),
+                assign("b", ["pow", C(2), ["pow", Y, C(2)]]), yield_(V("b"), comp="b")])
     # nested conditionals followed by an else branch: else_ negates the flag of the if_ block closed last (the outer one)
     conds = [CMP("<", Y, C(2)), CMP(">=", Y, C(2)), CMP("<", Y, C(100))]
     E = {"op": "endif"}
@@ -140,7 +143,7 @@ def grammar_programs(chk):
             yield_(S(V("b"), SUB("<p>v", C(1))), comp="bv")]
     out = []
     for sh in res.json_lines("GEN"):
-        if sh["kind"] in ("fail", "switch") and sh["guard"] == "none":
+        if sh["kind"] in ("fail", "switch", "raise", "restart") and sh["guard"] == "none":
             continue
         out.append(pre + c08.shape_calls(sh) + post)
     if len(out) < 1000:
